@@ -89,6 +89,35 @@ BUILTIN_ENUMS = {
 }
 
 
+def _errorkind_variants():
+    """std::io::ErrorKind's variants in declaration order (= discriminants), read from the rust-src of the toolchain the MIR is dumped with"""
+    import subprocess
+    try:
+        sysroot = subprocess.run(['rustc', '+nightly', '--print', 'sysroot'], capture_output=True, text=True, timeout=60).stdout.strip()
+        for rel in ('library/core/src/io/error.rs', 'library/std/src/io/error.rs'):
+            path = os.path.join(sysroot, 'lib/rustlib/src/rust', rel)
+            if not os.path.exists(path):
+                continue
+            txt = open(path).read()
+            m = re.search(r'pub enum ErrorKind \{(.*?)\n\}', txt, re.S)
+            if not m:
+                continue
+            vs = []
+            for line in m.group(1).split('\n'):
+                line = line.strip()
+                mm = re.match(r'^([A-Z][A-Za-z0-9]*),$', line)
+                if mm:
+                    vs.append(mm.group(1))
+            if 'WouldBlock' in vs and 'Other' in vs:
+                return vs
+    except Exception:
+        pass
+    return None
+
+
+BUILTIN_ENUMS['ErrorKind'] = _errorkind_variants()
+
+
 class TypeTables:
     def __init__(self, repo_src, extra_files=()):
         self.enums, self.structs = {}, {}
